@@ -578,6 +578,7 @@ def rec_key(rec, ver):
 
 
 class ChunkedTarget:
+    marker_len = 0
     """protocol.ChunkedBodyDecoder fed directly; spec = ("chunked", [chunk..], error args | None)."""
     name = "ChunkedBodyDecoder"
 
@@ -626,6 +627,7 @@ class ChunkedTarget:
 
 
 class LengthTarget:
+    marker_len = 0
     """protocol.LengthPrefixedBodyDecoder fed directly; spec = ("length", body)."""
     name = "LengthPrefixedBodyDecoder"
 
@@ -660,6 +662,7 @@ class LengthTarget:
 
 
 class ServerPushTarget:
+    marker_len = 0
     """The server-side request decoders fed through accept_bytes, the way a server medium does after
     it has read the version line: v1 SmartServerRequestProtocolOne, v2 ...Two (marker line stripped),
     v3 build_server_protocol_three (marker line stripped) = ProtocolThreeDecoder +
@@ -726,11 +729,14 @@ class _NoMoreBytes:
 
 
 class ClientPushTarget:
+    marker_len = len(MARK3)     # this decoder expects the version marker: cuts inside it are counted
+
     """v3 response decoding: ProtocolThreeDecoder(expect_version_marker=True) +
     ConventionalResponseHandler, fed through accept_bytes; results read through the handler API."""
     def __init__(self, spec):
         self.spec = spec
         self.name = "client-v3-push" + tag_of(spec)
+        self.marker_cuts = set()
         self.wire = encode_response(spec)
         self.expected = expected_response(spec)
 
@@ -796,7 +802,10 @@ def run_push(t, data, msglen, ch, mode):
                     return [("%s:complete-before-message-end" % t.name, {"sizes": sizes, "pos": pos, "message_len": msglen})]
             if mode == "hint":
                 h = t.hint()
-                if not isinstance(h, int) or h < 1 or h > msglen - pos:
+                if not isinstance(h, int) or h < 1:
+                    return [("%s:next_read_size-not-positive-before-message-end" % t.name,
+                             {"sizes": sizes, "pos": pos, "next_read_size": h, "left_in_message": msglen - pos})]
+                if h > msglen - pos:
                     return [("%s:next_read_size-beyond-message" % t.name,
                              {"sizes": sizes, "pos": pos, "next_read_size": h, "left_in_message": msglen - pos})]
                 maxd = h
@@ -806,6 +815,8 @@ def run_push(t, data, msglen, ch, mode):
             sizes.append(d)
             t.accept(data[pos:pos + d])
             pos += d
+            if pos < t.marker_len:
+                t.marker_cuts.add(pos)
         got = t.observation()
     except Stop:
         raise
@@ -854,6 +865,7 @@ class ClientPullTarget:
         self.name = {1: "client-v1", 2: "client-v2", 3: "client-v3"}[self.ver] + tag_of(spec)
         self.wire = encode_response(spec)
         self.expected = expected_response(spec)
+        self.marker_cuts = set()      # read boundaries that fell inside the v3 version marker (coverage)
 
     def read(self, count):
         n = len(self.data)
@@ -865,6 +877,12 @@ class ClientPullTarget:
             if left <= 0:
                 raise Stop([("%s:reads-after-message-end" % self.name,
                              {"sizes": list(self.sizes), "asked": count, "phase": snap(self.phase)})])
+            if not isinstance(count, int) or count < 1:
+                # read(0) returns nothing for ever, read(-N) means "until EOF": either way the reader
+                # never gets the rest of its message
+                raise Stop([("%s:read-size-not-positive-before-message-end" % self.name,
+                             {"sizes": list(self.sizes), "asked": count, "left_in_message": left, "pos": self.pos,
+                              "phase": snap(self.phase)})])
             if count > left:
                 raise Stop([("%s:asks-for-more-than-left-in-message" % self.name,
                              {"sizes": list(self.sizes), "asked": count, "left_in_message": left, "pos": self.pos,
@@ -876,6 +894,8 @@ class ClientPullTarget:
         b = self.data[self.pos:self.pos + d]
         self.pos += d
         self.sizes.append(d)
+        if self.ver == 3 and self.pos < len(MARK3):
+            self.marker_cuts.add(self.pos)
         return b
 
     def key(self):
@@ -907,6 +927,10 @@ class ClientPullTarget:
         except (Stop, HarnessError):
             raise
         except Exception as e:  # noqa
+            if req._state == "done" and self.pos < msglen and mode == "count":
+                # the reader declared the response finished (next_read_size() == 0) in mid message
+                return [("%s:finished-before-message-end" % self.name,
+                         {"sizes": self.sizes, "pos": self.pos, "message_len": msglen, "then": repr(e)[:200]})]
             return [("%s:exception:%s" % (self.name, innermost(e)), {"sizes": self.sizes, "error": repr(e)[:300]})]
         bad = diff(self.expected, got)
         if bad:
@@ -1063,6 +1087,10 @@ class ServerMediumTarget:
                                  {"sizes": list(self.sizes), "requests_complete": k, "written": self.out.value()})])
             end = [e for e in self.ends if e > self.pos][0]
             left = end - self.pos
+            if not isinstance(n, int) or n < 1:
+                raise Stop([("%s:read-size-not-positive-before-message-end" % self.name,
+                             {"sizes": list(self.sizes), "asked": n, "left_in_request": left, "pos": self.pos,
+                              "request": self.ends.index(end)})])
             if n > left:
                 raise Stop([("%s:asks-for-more-than-left-in-request" % self.name,
                              {"sizes": list(self.sizes), "asked": n, "left_in_request": left, "pos": self.pos,
@@ -1395,6 +1423,11 @@ def explore_item(item, acc, limit=None):
     if n >= 2:
         acc.nt(repr(item))
     acc.outcomes.add(outcome_class(item, t))
+    mc = getattr(t, "marker_cuts", None)
+    if mc is not None and (item[0] == "push" or t.ver == 3):
+        acc.count("v3_client_items")
+        if len(mc) == len(MARK3) - 1:
+            acc.count("v3_client_items_cut_at_every_marker_byte")
     add_violations(acc, s.verdicts, item, n)
     return s
 
